@@ -442,7 +442,7 @@ impl Clone for ArmedClone {
     }
 }
 
-#[unimock(api=QMock, unmock_with=[real_q0, _, _, _, _])]
+#[unimock(api=QMock, unmock_with=[real_q0, _, _, _, _, _])]
 pub trait Q {
     fn q0(&self, x: u8) -> u32;
     fn q_def(&self, x: u8) -> u32 {
@@ -455,6 +455,8 @@ pub trait Q {
     fn q_clone(&self, x: u8) -> ArmedClone;
     /// mocked with ordered (next_call) clauses
     fn q_ord(&self, x: u8) -> u32;
+    /// mocked with an ordered clause whose matcher panics while armed
+    fn q_om(&self, x: u8) -> u32;
 }
 
 pub fn real_q0(_: &impl std::any::Any, x: u8) -> u32 {
@@ -972,6 +974,7 @@ pub fn run(ctx: &Ctx) -> Verdict {
     v.subs.push(sub2);
     // usability after a caught user panic
     v.subs.push(vcore::run_enumerated(ctx, "usable-after-caught-panic", usable_table(), |c| check_usable(&worker, c)));
+    v.subs.push(vcore::run_enumerated(ctx, "caught-panic-in-an-ordered-matcher", ordered_matcher_table(), check_ordered_matcher));
     // mock-induced panics about calls with long / non-ASCII text arguments must stay catchable
     v.subs.push(super::text::sub_report(ctx, super::text::Oracle::NoAbort));
     // random repetition (different interleavings with the keeper thread)
@@ -982,9 +985,93 @@ pub fn run(ctx: &Ctx) -> Verdict {
     v
 }
 
+// ------------------------------------------------------------------ user panic in the matcher of an ORDERED pattern
+
+/// A user panic raised by the matcher of an ordered (`next_call`) pattern is caught: the call did not match, so the
+/// pattern's count must not include it, and verification must report the pattern as unmet.
+#[derive(Clone, Copy, Debug, PartialEq, Eq, Hash, Serialize, Deserialize)]
+pub struct OrderedMatcherCase {
+    /// the pattern expects exactly this many calls (1 or 2); with 2, one good call follows the caught panic
+    pub expected: u8,
+    pub through_clone: bool,
+    pub explicit_verify: bool,
+}
+
+pub fn check_ordered_matcher(c: &OrderedMatcherCase) -> Result<CaseInfo, String> {
+    ARMED.store(false, Ordering::SeqCst);
+    let clause = (
+        QMock::q_ord.next_call(&|m| m.func(|_, _| true)).answers(&|_, _| 11),
+        QMock::q_om
+            .next_call(&|m| {
+                m.func(|_, _| {
+                    if armed() {
+                        panic!("ORIGIN ordered matcher")
+                    }
+                    true
+                })
+            })
+            .answers(&|_, _| 70)
+            .n_times(c.expected as usize),
+    );
+    let u = Unimock::new(clause);
+    let cl = u.clone();
+    let via: &Unimock = if c.through_clone { &cl } else { &u };
+    let mut run = || -> Result<(), String> {
+        match catch(|| via.q_ord(0)) {
+            Ok(11) => {}
+            other => return Err(format!("HARNESS: first ordered call: {other:?}")),
+        }
+        ARMED.store(true, Ordering::SeqCst);
+        let r = catch(|| via.q_om(1));
+        ARMED.store(false, Ordering::SeqCst);
+        match r {
+            Err(m) if m.contains("ORIGIN ordered matcher") => {}
+            other => return Err(format!("HARNESS: the armed ordered matcher did not panic: {other:?}")),
+        }
+        if c.expected == 2 {
+            // the panicking call used up its position in the global sequence; the pattern's range still has one
+            match catch(|| via.q_om(2)) {
+                Ok(70) => {}
+                other => return Err(format!("the mock is not usable after the caught panic: the next q_om call gave {other:?}")),
+            }
+        }
+        Ok(())
+    };
+    let r = run();
+    drop(cl);
+    let explicit = c.explicit_verify;
+    let verdict = catch(move || if explicit { u.verify() } else { drop(u) });
+    r?;
+    match verdict {
+        Err(msg) if msg.contains("q_om") => Ok(CaseInfo::new(true).class_if(c.through_clone, "through-a-clone").class_if(c.expected == 2, "one-good-call-after-the-panic")),
+        Err(msg) => Err(format!("verification fails, but not about the ordered pattern of q_om whose matcher panicked (it matched {} of {} calls): {msg}", c.expected - 1, c.expected)),
+        Ok(()) => Err(format!(
+            "the ordered pattern of q_om matched {} of {} expected calls (one call ended in a caught user panic inside its matcher), yet verification passed",
+            c.expected - 1,
+            c.expected
+        )),
+    }
+}
+
+pub fn ordered_matcher_table() -> Vec<OrderedMatcherCase> {
+    let mut v = vec![];
+    for expected in [1u8, 2] {
+        for through_clone in [false, true] {
+            for explicit_verify in [false, true] {
+                v.push(OrderedMatcherCase { expected, through_clone, explicit_verify });
+            }
+        }
+    }
+    v
+}
+
 pub fn replay(sub: &str, case: Value) -> Result<(), String> {
     if sub == "text-arguments" {
         return super::text::replay(case, super::text::Oracle::NoAbort);
+    }
+    if sub == "caught-panic-in-an-ordered-matcher" {
+        let c: OrderedMatcherCase = serde_json::from_value(case).map_err(|e| format!("HARNESS: bad case: {e}"))?;
+        return check_ordered_matcher(&c).map(|_| ());
     }
     if sub == "usable-after-caught-panic" {
         let c: UsableCase = serde_json::from_value(case).map_err(|e| format!("HARNESS: bad case: {e}"))?;
